@@ -154,3 +154,129 @@ def check_C14():
                 "each replayed on bytes.Reader, a plain counting io.Reader and *os.File; distinct = behaviours that mix both calls",
                 "TLC enumerates the complete behaviour tree of Reader.tla and checks OffsetExact/NoOverread/SameCidSequence on it; every maximal behaviour is replayed",
                 assumptions=["archives are built by the reference encoder; the spec's offsets are compared with BlockMetadata and with the bytes at SourceOffset"])
+
+
+# ---------------------------------------------------------------------------------------------
+# Archive families (reader side): C01 (read side), C02, C03, C07, C13
+
+ARCH_RULE = ("every abstract archive with <= %d sections over %s x 4 root lists (none, one, CIDv0+v1, duplicate) x 7 containers "
+             "(CARv1, CARv2 +/- index of either codec, data/index padding, fully-indexed, null padding) is enumerated by TLC (ArchiveCases.tla), built by the "
+             "reference encoder and given to the real code; ")
+
+
+def archive_family(pid, cfgs, mode, emit, rule, note, level="model_checking", assumptions=None):
+    vh = build_harness()
+    check_alphabet(vh)
+    tot_model = {"distinct": 0, "states": 0, "cmd": ""}
+    reps = []
+    emit_states = 0
+    for cfg in cfgs:
+        model = run_tlc("MCArchive", cfg + ".cfg", timeout=1800)
+        tlc_must_pass(model, "ArchiveCases consistency invariants (%s)" % cfg)
+        tot_model["distinct"] += model["distinct"]
+        tot_model["states"] += model["states"]
+        tot_model["cmd"] = model["cmd"]
+        em = run_tlc("MCArchive", "%s_emit%s.cfg" % (cfg, emit), timeout=1800)
+        tlc_must_pass(em, "ArchiveCases emitter (%s)" % cfg)
+        emit_states += em["distinct"]
+        rc, rep = harness_run(vh, ["archive-replay", em["out"], "@REPORT", "mode=" + mode])
+        reps.append(rep)
+        os.remove(em["out"])
+    rep = reps[0]
+    for r in reps[1:]:
+        rep["evaluations"] += r["evaluations"]
+        rep["distinct_nontrivial"] += r["distinct_nontrivial"]
+        rep["violations"] = (rep["violations"] or []) + (r["violations"] or [])
+        rep["samples"] = (rep["samples"] or []) + (r["samples"] or [])
+        for k, v in (r["counters"] or {}).items():
+            rep["counters"][k] = rep["counters"].get(k, 0) + v
+        rep["inconclusive"] = (rep.get("inconclusive") or []) + (r.get("inconclusive") or [])
+    cov = merge_cov(tot_model, {"distinct": emit_states}, rep, {"rule": rule, "exhaustive": True, "explanation": note})
+    cov["samples"] = (cov["samples"] or [{"note": "none"}])[:10]
+    finish(pid, level, cov, rep["violations"] or [], assumptions=assumptions or [], inconclusive=rep.get("inconclusive") or None)
+
+
+def arch_cfgs():
+    return ["Archive_A", "Archive_B"] if tier() == "quick" else ["Archive_A", "Archive_B", "Archive_Big", "Archive_A4"]
+
+
+def check_C03():
+    archive_family("C03", arch_cfgs(), "idx", "Idx",
+                   ARCH_RULE % (3, "two 6-8 block alphabets (equal multihash/other codec, equal digest under 3 hash functions, CIDv0, identity, 20/32/64-byte digests, 204-byte CID, varint boundaries)") +
+                   "for each: GenerateIndex / LoadIndex(insertion) / GenerateIndexFromFile / ReadOrGenerateIndex x {bytes.Reader, *os.File, plain io.Reader} x both codecs + insertion index x "
+                   "StoreIdentityCIDs x MaxIndexCidSize {default, 64}; GetAll/GetFirst for 13 probe CIDs are compared with the specification's IndexOffsets, every offset is decoded from the "
+                   "payload bytes, ForEach is compared with the record multiset",
+                   "complete enumeration of the bounded archive space; all entry points and source kinds per archive")
+
+
+def check_C07():
+    archive_family("C07", arch_cfgs(), "ro", "Ro",
+                   ARCH_RULE % (3, "the same alphabets") +
+                   "for each: blockstore.NewReadOnly (ReaderAt-only source, also with a supplied index of either codec), blockstore.OpenReadOnly (mmap) and storage.OpenReadable x "
+                   "UseWholeCIDs x StoreIdentityCIDs (x ZeroLengthSectionAsEOF for null-padded archives); Has/Get/GetSize/GetStream for 13 probe CIDs, the AllKeysChan sequence and Roots "
+                   "are compared with the specification's scan-derived answers (RoHas/RoGet of ArchiveOps.tla)",
+                   "complete enumeration of the bounded archive space; all front-ends and option sets per archive")
+
+
+def check_C13():
+    archive_family("C13", arch_cfgs(), "stats", "Stats",
+                   ARCH_RULE % (3, "the same alphabets") +
+                   "Reader.Inspect(true|false) x ZeroLengthSectionAsEOF is compared field by field with the specification's Stats operator, and its success with that of a hash-verifying "
+                   "BlockReader scan; corrupted/truncated inputs are compared in the same way from the C02 mutation set",
+                   "complete enumeration of the bounded valid-archive space; the iff-with-scan clause is additionally evaluated on every truncation/corruption of the C02 archive set")
+
+
+def check_C02():
+    import re, collections
+    vh = build_harness()
+    check_alphabet(vh)
+    cfg = "Archive_T" if tier() == "quick" else "Archive_T3"
+    model = run_tlc("MCArchive", cfg + ".cfg", timeout=1800)
+    tlc_must_pass(model, "ArchiveCases invariants (%s)" % cfg)
+    em = run_tlc("MCArchive", cfg + "_emitScan.cfg", timeout=1800)
+    tlc_must_pass(em, "ArchiveCases emitter")
+    obs, arch = os.path.join(scratch(), "obs.ndjson"), os.path.join(scratch(), "arch.ndjson")
+    rc, rep = harness_run(vh, ["archive-replay", em["out"], "@REPORT", "mode=trunc", "obs=" + obs, "arch=" + arch], timeout=3000)
+    val = run_tlc("ReaderObs", "ReaderObs.cfg", workers=1, timeout=3000, env={"VERIF_OBS": obs, "VERIF_ARCH": arch})
+    nobs = sum(1 for _ in open(obs))
+    txt = open(val["out"], errors="replace").read()
+    m = re.search(r'"VALIDATED", (\d+)', txt)
+    if not m or int(m.group(1)) != nobs:
+        raise Inconclusive("ReaderObs validation did not consume all %d observations\n%s" % (nobs, val["tail"]))
+    rejects = [int(x) for x in re.findall(r'<<"REJECT", (\d+)>>', txt)]
+    viols = list(rep["violations"] or [])
+    if rejects:
+        want = set(rejects)
+        archs = {}
+        for l in open(arch):
+            r = json.loads(l)
+            archs[r["aid"]] = r["a"]
+        for i, l in enumerate(open(obs), 1):
+            if i in want:
+                o = json.loads(l)
+                viols.append({"class": "untrusted-read/%s/%s/%s" % (o["kind"], o["reader"], o["end"] + ("-bad-block" if o["bad"] else "")),
+                              "detail": "reader %s on %s of archive %s: returned %d blocks, bad=%s, ended %s -- rejected by ReaderObs!Allowed" % (
+                                  o["reader"], ("prefix of %d bytes" % o["k"]) if o["kind"] == "trunc" else ("byte %d flipped (section %d)" % (o["k"], o["sec"])),
+                                  json.dumps(archs[o["aid"]]), o["n"], o["bad"], o["end"]),
+                              "replay": {"family": "trunc", "obs": o, "a": archs[o["aid"]]}})
+    rc2, hf = harness_run(vh, ["hashfuzz", "@REPORT", "seed=%d" % seed(), "n=%d" % (60000 if tier() == "quick" else 3000000)])
+    viols += hf["violations"] or []
+    cov = {"evaluations": rep["evaluations"] + hf["evaluations"], "distinct_nontrivial": rep["distinct_nontrivial"] + hf["distinct_nontrivial"],
+           "rule": "for every archive of the TLC-enumerated set (<= %d sections over {raw, CIDv0, identity, truncated digest, empty identity, empty data} x 3 root lists x "
+                   "{CARv1, CARv2+index, CARv2 padded index-less}): EVERY proper prefix inside headers/sections and a 0xff / low-bit / high-bit flip of EVERY data and digest byte, "
+                   "through BlockReader (Next, SkipNext, alternating; bytes.Reader and plain io.Reader), Reader.Inspect(true), root-module and internal CARv1 readers and loaders; one observation "
+                   "record each, validated by TLC against ReaderObs!Allowed (region of the cut computed from the specification's layout). Plus random multi-edit mutations and raw random strings "
+                   "whose returned blocks are re-hashed. distinct = distinct (archive, mutation, reader)" % (2 if tier() == "quick" else 3),
+           "samples": (rep["samples"] or [])[:6] + [{"observation": json.loads(open(obs).readline())}],
+           "observations_validated_by_tlc": nobs, "tlc_rejects": len(rejects), "hashfuzz_inputs": hf["evaluations"],
+           "states": model["distinct"], "transitions": model["states"], "tlc_validate_cmd": val["cmd"], "counters": rep["counters"]}
+    finish("C02", "fault_enumeration", cov, viols, assumptions=["SkipNext does not verify hashes by design: it is held to the truncation half only"],
+           inconclusive=(rep.get("inconclusive") or None))
+
+
+def check_C01():
+    archive_family("C01", arch_cfgs(), "scan", "Scan",
+                   ARCH_RULE % (3, "the same alphabets") +
+                   "read side: v2 BlockReader (seekable and plain source), v2 Reader (DataReader/IndexReader/Roots), root-module CarReader and LoadCar, internal CARv1 reader and loader must return the "
+                   "specification's roots and (CID, bytes) sequence; write side (store-replay with payload comparison, see counters): every writer's payload equals the reference encoding",
+                   "complete enumeration of the bounded archive space x all sequential readers")
